@@ -9,7 +9,7 @@
 From BMC Require Import Base Prim Layers Layers2 Serialize Packet Conn Hmac Handshake HandshakeProofs ChannelFacts SpecBmc KeyAgreement.
 From Coq Require Import String.
 Notation length := List.length (only parsing).
-From BMCProps Require Import Tie.
+From BMCProps Require Import TieCrypto.
 
 (* for every supported suite (authentication SHA1/MD5/SHA256 x integrity SHA1-96/MD5-128/SHA256-128 x AES-CBC-128,
    which includes suites 17 and 3), every user name of 0..16 bytes, password of 0..20 bytes, KG absent or 20
